@@ -6,8 +6,10 @@ import (
 	"sort"
 	"strings"
 	"sync"
+	"sync/atomic"
 	"time"
 
+	"verif/faketc"
 	mm "verif/minimysql"
 	"verif/vc"
 	"verif/wire"
@@ -220,6 +222,7 @@ func c16Mixed(r *vc.Run, env *c16Env, rnd *vc.Rand, name string) {
 		err     error
 		journal []string
 		tc      []string
+		p2      int32 // branches that were sent a phase-two request before the global transaction ended
 	}
 	runs := map[string]*run{}
 	for _, k := range []string{"bare", "at", "xa"} {
@@ -241,7 +244,34 @@ func c16Mixed(r *vc.Run, env *c16Env, rnd *vc.Rand, name string) {
 		steps = append(steps, gtxStep{Op: "conn_release"})
 		rr := &run{}
 		runs[k] = rr
+		// like the real coordinator for XA branches, phase two is delivered before the global commit / rollback is
+		// answered: when the business function returns, the global transaction is over at the database too (a branch
+		// that is still prepared would hide its rows from the statements that follow)
+		var driven int32
+		env.w.TC.AddRule(&faketc.Rule{Name: "c16-mixed", Match: func(q *faketc.Req) bool {
+			return q.TxName == cs && (q.Msg.Type == wire.TGlobalCommit || q.Msg.Type == wire.TGlobalRollback)
+		}, Do: func(q *faketc.Req) bool {
+			atomic.StoreInt32(&driven, 1)
+			go func() {
+				// a branch that ended in phase one (failed statement, local rollback) has nothing prepared; the XA
+				// manager does not answer a phase-two request for it (observation in DESIGN.md), so do not wait long
+				wait := 20 * time.Second
+				if end == "autocommit-failing" || end == "rollback" {
+					wait = 1500 * time.Millisecond
+				}
+				p2 := env.w.TC.DrivePhaseTwoReported(q.Xid, q.Msg.Type == wire.TGlobalCommit, wait)
+				for _, x := range p2 {
+					if x.Resp == nil {
+						r.Count(fmt.Sprintf("mixed: phase two (%s, commit=%v, gtx_part=%s) not answered", k, q.Msg.Type == wire.TGlobalCommit, p.Feat["gtx_part"]), 1)
+					}
+				}
+				atomic.StoreInt32(&rr.p2, int32(len(p2)))
+				q.ReplyDefault()
+			}()
+			return true
+		}})
 		rr.err = env.ch.Call("gtx", &gtxScope{Case: cs, Name: cs, TimeoutMs: 60000, Outcome: "nil", Label: k, NoGtx: true, Steps: steps}, &rr.res)
+		env.w.TC.ClearRules()
 		var markSeq int64 = -1
 		for _, m := range env.w.Marks.Of(cs) {
 			if m.What == "c16-after-gtx" {
@@ -266,7 +296,7 @@ func c16Mixed(r *vc.Run, env *c16Env, rnd *vc.Rand, name string) {
 			rr.tc = append(rr.tc, ev.Type)
 		}
 		// finish the global transaction of this run at the coordinator (phase two), outside the compared window
-		if x := rr.res; len(x.Steps) > 1 && x.Steps[1].Scope != nil && x.Steps[1].Scope.XidIn != "" {
+		if x := rr.res; atomic.LoadInt32(&driven) == 0 && len(x.Steps) > 1 && x.Steps[1].Scope != nil && x.Steps[1].Scope.XidIn != "" {
 			env.w.TC.DrivePhaseTwo(x.Steps[1].Scope.XidIn, outcome == "nil", 1, 0)
 		}
 		// the three databases must start the next run alike: bring the tables back
@@ -284,6 +314,28 @@ func c16Mixed(r *vc.Run, env *c16Env, rnd *vc.Rand, name string) {
 		viol := func(clause, detail string) {
 			r.Violate(&vc.Violation{Clause: clause, Shape: shape, Features: feat, Detail: detail, Case: map[string]interface{}{"inside": inner, "after": after, "table": describeTable(t)},
 				History: map[string]interface{}{"proxy_steps": got.res.Steps, "bare_steps": want.res.Steps, "proxy_journal_after_gtx": got.journal, "bare_journal_after_gtx": want.journal, "coordinator_requests_after_gtx": got.tc}})
+		}
+		// the connection of the application closed under it by phase two: the first statement afterwards is refused
+		// with "bad connection" where the bare driver executes it
+		if k == "xa" && atomic.LoadInt32(&got.p2) > 0 {
+			closed := false
+			for i := 3; i < len(got.res.Steps) && i < len(want.res.Steps); i++ {
+				a, b := got.res.Steps[i], want.res.Steps[i]
+				if a.Op == "conn_release" {
+					break
+				}
+				if a.Err == "" && a.Panic == "" {
+					break
+				}
+				if b.Err == "" && (strings.Contains(a.Err, "bad connection") || strings.Contains(a.Err, "connection is already closed")) {
+					closed = true
+				}
+				break
+			}
+			if closed {
+				viol("dedicated-conn-closed-by-phase-two", fmt.Sprintf("a dedicated connection (sql.Conn) ran an XA branch inside a global transaction; once phase two of that branch was done the connection was closed under the application: the first statement after the global transaction failed with %q, the bare driver executed it", clipStr(got.res.Steps[3].Err, 120)))
+				continue
+			}
 		}
 		if strings.Join(got.journal, "\n") != strings.Join(want.journal, "\n") {
 			viol("journal-differs", fmt.Sprintf("on a dedicated connection that had been used inside a global transaction, the statements reaching the database afterwards differ from the bare driver's: %d vs %d, first proxied %q", len(got.journal), len(want.journal), clipStr(strings.Join(clipList(got.journal, 2), " ; "), 300)))
